@@ -301,6 +301,24 @@ pub fn run(p: &Params) -> Outcome {
                 check_descriptor(ctx, c, &base, band, a, true);
             }
             ctx.nontrivial_enumerated(256);
+            // aliases of recognised descriptors of this band: same low byte in every higher
+            // plane position, full-width forms, other case -- all must be unrecognised
+            for pos in sig::positions(c) {
+                let (b0, a0) = sig::pos_to_sig(c, pos).unwrap();
+                if b0 != band {
+                    continue;
+                }
+                for k in 1..=0x10FFu32 {
+                    if let Some(ch) = char::from_u32((k << 8) | a0 as u32) {
+                        ctx.count("attribute_aliases_checked");
+                        // is_valid for all of them, the encoder for every 16th
+                        check_descriptor(ctx, c, &base, band, ch, k % 16 == 1);
+                    }
+                }
+                if let Some(ch) = char::from_u32(0xFF21 + (a0 as u32 - 0x41)) {
+                    check_descriptor(ctx, c, &base, band, ch, true);
+                }
+            }
             // sampled higher code points
             let mut rng = Rng::derive(seed, "C18.hi", j as u64);
             for _ in 0..64 {
